@@ -99,7 +99,7 @@ REGISTRY = {
         'not_decided': ['liveness of completion', 'global counting invariant effects = 1 + #live children (only per-operation steps)'],
     },
     'C06': {
-        'modules': ['contracts.core_tasks'], 'level': 'proof',
+        'modules': ['contracts.core_tasks', 'contracts.core_dispatch'], 'level': 'proof',
         'level_text': 'processTask (which drives generators through next/send/throw, modelled as callbacks) keeps the bookkeeping '
                       'invariant waitingHandlers = live generator frames on every branch and reschedules the caller whenever the '
                       'callee finishes or fails. The generator bodies of waitEvent (by object and by name) and callEvent are verified '
@@ -127,7 +127,7 @@ REGISTRY = {
         'not_decided': ['liveness ("keeps processing until stop")', 'stop() from a second thread'],
     },
     'C09': {
-        'modules': ['contracts.core_timers'], 'level': 'proof',
+        'modules': ['contracts.core_timers', 'contracts.pollers'], 'level': 'proof',
         'level_text': 'Over real-valued time with a non-decreasing clock: a Timer visit fires iff now >= expiry and no unregistration is '
                       'pending, re-arms a persistent timer to now\' + interval (consecutive firings an interval apart), otherwise cuts the '
                       'idle wait to expiry - now; reduce_time_left only lowers; the fallback generator blocks for at most time_left; '
@@ -137,7 +137,7 @@ REGISTRY = {
         'explanation': 'timer contracts discharged by z3',
     },
     'C03': {
-        'modules': ['contracts.core_timers', 'contracts.core_dispatch'], 'level': 'other',
+        'modules': ['contracts.core_timers', 'contracts.core_dispatch', 'contracts.pollers'], 'level': 'other',
         'level_text': 'PARTIAL: only the four sequential mechanisms of the wake-up hand-shake are proved as post-conditions (foreign-thread '
                       'branch of _fire, arming block of the dispatcher, reduce_time_left -> resume, clear-before-wait and timeout reads). '
                       'That they compose to "nothing lost, loop always wakes" under every interleaving is NOT decided by sequential contracts.',
